@@ -503,6 +503,62 @@ def crowd_case(case):
     return q * 14
 
 
+def shrunk_case(case):
+    """A population that peaked (90 / 300 agents) and shrank to a handful, some of the survivors carrying no component at
+    all: every answer of the generator is enumerated - each survivor matching the filter is reachable by a pick, nobody
+    else is."""
+    from mc.engine.seams import reset_library
+    reset_library()
+    peak, keep = case['peak'], case['keep']
+    m = new_model(seed=1)
+    env = m.environment
+    agents = []
+    for i in range(peak):
+        a = Core.Agent(f's{i}', m, tag=i % 2)
+        if i % 3 == 0:
+            a.add_component(X(a, m))
+        if i % 7 == 0:
+            a.add_component(Y(a, m))
+        agents.append(a)
+        env.add_agent(a)
+    stay = set(range(0, peak, max(1, peak // keep)))          # every k-th agent survives (some bare, some with X / Y)
+    order = [i for i in range(peak) if i not in stay]
+    if case['leave'] == 'back_to_front':
+        order.reverse()
+    for i in order:
+        env.remove_agent(f's{i}')
+    res = [a for i, a in enumerate(agents) if i in stay]
+    real = m.random
+    n = 0
+    for tmpl in ((), ('X',), ('Y',), ('X', 'Y')):
+        targs = [TYPES[t] for t in tmpl]
+        for tag in (None, 0, 1):
+            kw = {} if tag is None else {'tag': tag}
+            exp = [a for a in res if all(T in a.components for T in targs) and (tag is None or a.tag == tag)]
+            got = env.get_agents(*targs, **kw)
+            if len(got) != len(exp) or any(g is not e for g, e in zip(got, exp)):
+                raise Violation(f'{len(res)} survivors of {peak}: template {list(tmpl)} tag {tag}: get_agents',
+                                expected=[a.id for a in exp], observed=[getattr(a, 'id', a) for a in got])
+            picks = set()
+
+            def pick(rng):
+                m.random = rng
+                return env.get_random_agent(*targs, **kw)
+            for script, r, rng in enumerate_scripts(pick):
+                n += 1
+                if (r is None) != (not exp) or (r is not None and not any(r is e for e in exp)):
+                    raise Violation(f'{len(res)} survivors of {peak}: template {list(tmpl)} tag {tag}: get_random_agent '
+                                    f'returned an agent outside the filter', observed=getattr(r, 'id', None))
+                if r is not None:
+                    picks.add(r.id)
+            m.random = real
+            if picks != {a.id for a in exp}:
+                raise Violation(f'{len(res)} survivors of a population of {peak} (the others left {case["leave"]}): template '
+                                f'{list(tmpl)} tag {tag}: not every matching agent is reachable by get_random_agent',
+                                expected=sorted(a.id for a in exp), observed=sorted(picks))
+    return n
+
+
 def in_system_case(case):
     """Queries made from inside one System.execute(): the same query is repeated after an agent was re-tagged, after a
     component was attached to / detached from a resident, and after an agent joined - each answer reflects the
@@ -685,6 +741,16 @@ def run(ctx):
             return
     ctx.leg('crowd', note='1300 and 12000 (thorough also 70000) agents, 9 templates x 5 tag filters, seeded picks each '
                           '(membership only)')
+    for peak, keep in ((90, 12), (300, 20)) if not ctx.small else ((90, 12),):
+        for leave in ('front_to_back', 'back_to_front'):
+            case = {'leg': 'shrunk', 'peak': peak, 'keep': keep, 'leave': leave}
+            ctx.traces += 1
+            try:
+                ctx.transitions += hbfs._guard(shrunk_case, case)
+            except Violation as v:
+                ctx.report(case, v)
+                return
+    ctx.leg('shrunk', note='populations that peaked at 90 / 300 and shrank to a dozen: every pick enumerated')
     for p in POOLS:
         case = {'leg': 'in_system', 'pool': p}
         ctx.traces += 1
@@ -720,6 +786,9 @@ def explore_pool(ctx, p):
 def replay(case):
     if case['leg'] == 'special_population':
         hbfs._guard(special_population_case, case)
+        return
+    if case['leg'] == 'shrunk':
+        hbfs._guard(shrunk_case, case)
         return
     if case['leg'] == 'crowd':
         hbfs._guard(crowd_case, case)
